@@ -200,6 +200,7 @@ def _worker(args):
         import importlib
         import torch
         torch.set_num_threads(1)
+        sys.stdout = open(os.devnull, 'w')   # the library prints progress chatter; verdict lines come from the parent only
         mod = importlib.import_module(modname)
         out = mod.execute(params)
         return out if isinstance(out, list) else [out]
@@ -208,15 +209,38 @@ def _worker(args):
 
 
 def pmap(modname, params_list, workers=None):
+    """Run execute() of `modname` over the parameter list in worker processes (spawned, one torch thread
+    each).  A worker that dies (killed from outside, OOM) breaks the pool: unfinished chunks are re-run in a
+    fresh pool, then serially, so a lost worker never hangs the check."""
     import multiprocessing as mp
+    from concurrent.futures import ProcessPoolExecutor
+    from concurrent.futures.process import BrokenProcessPool
     workers = workers or min(16, os.cpu_count() or 1)
-    if workers <= 1 or len(params_list) <= 1:
-        res = [_worker((modname, p)) for p in params_list]
-    else:
+    n = len(params_list)
+    done = [None] * n
+    if workers <= 1 or n <= 1:
+        for i, p in enumerate(params_list):
+            done[i] = _worker((modname, p))
+        return [r for rs in done for r in rs]
+    pending = list(range(n))
+    for attempt in range(3):
+        if not pending:
+            break
         ctx = mp.get_context('spawn')
-        with ctx.Pool(min(workers, len(params_list))) as pool:
-            res = pool.map(_worker, [(modname, p) for p in params_list], chunksize=1)
-    return [r for rs in res for r in rs]
+        try:
+            with ProcessPoolExecutor(max_workers=min(workers, len(pending)), mp_context=ctx) as ex:
+                futs = {i: ex.submit(_worker, (modname, params_list[i])) for i in pending}
+                for i, f in futs.items():
+                    try:
+                        done[i] = f.result()
+                    except BrokenProcessPool:
+                        pass
+        except BrokenProcessPool:
+            pass
+        pending = [i for i in range(n) if done[i] is None]
+    for i in pending:
+        done[i] = _worker((modname, params_list[i]))
+    return [r for rs in done for r in rs]
 
 
 def chunks(xs, n):
